@@ -44,7 +44,7 @@ def plan(tier):
 def cases(draw):
     recipe = draw(gen.problem_recipe(exact_only=True, densities=(10, 10, 8, 12), offsets=True, styles=True))
     n = recipe["n"]
-    if n == 1 and draw(st.integers(0, 3)) == 0:
+    if n == 1 and draw(st.integers(0, 1)) == 0:
         # "every box lower<upper": a thin 1-D box (width 1e-3..1e-8, at most 1e3 widths away from the origin, so
         # that the affine map keeps 12 significant digits inside the box)
         w = float(10.0 ** -draw(st.integers(3, 8))) * draw(st.floats(1.0, 9.0))
